@@ -126,6 +126,24 @@ def run(ctx):
                     if e[3] == e[2]:
                         ctx.count("draw_at_high_end")
             cases.append(c)
+    # every outcome of every choice draw: schemas whose strings come from an alphabet (the regex generator's default one,
+    # a declared one, the default str alphabet) are generated once per candidate index
+    sweep = [(schema.str.regex(r"^id=.;$"), "id=7;"), (schema.str.regex(r"^.{3}$"), "abc"), (schema.str.regex(r"a.b"), "a-b"),
+             (schema.str.regex(r"^[^x]\w\d$"), "ab1"), (schema.dict({"k": schema.list(schema.str.regex(r"^(.|ab)c$")).len(2)}), {"k": ["xc", "abc"]}),
+             (schema.str.len(2), "ab"), (schema.str.alphabet("ab \n").len(3), "ab "), (schema.str.contains("x").len(3), "axb")]
+    for s, w in sweep:
+        try:
+            if validate(s, w).has_errors() or not conforms.conforms(s, w):
+                continue
+        except Exception:  # noqa: BLE001
+            continue
+        for k in range(0, 128):
+            pol = "idx:%d" % k
+            c = gencorr.GenCase(s, pol)
+            gencorr.run_real(c, ctx.rnd)
+            oracle_case(ctx, s, w, pol, c.kind, c.value, c.log)
+            if k % 16 == 0:
+                cases.append(c)
     # the unpatched entry point with the real RNG as well
     for s, w in pairs[: ctx.n(40, 300)]:
         try:
